@@ -133,10 +133,12 @@ def build_harness(name, flavor='asan', sources=None, extra=(), link_lib=True, wh
     srcs = [os.path.join(HARNESS, s) for s in sources]
     rh = repo_hash()
     hh = hashlib.sha256()
-    for root, _, files in sorted(os.walk(HARNESS)):
-        for f in sorted(files):
-            with open(os.path.join(root, f), 'rb') as fh:
-                hh.update(f.encode() + fh.read())
+    deps = list(srcs)
+    for root, _, files in sorted(os.walk(HARNESS)):          # headers shared between probes
+        deps += [os.path.join(root, f) for f in sorted(files) if f.endswith(('.hxx', '.h', '.hpp'))]
+    for f in deps:
+        with open(f, 'rb') as fh:
+            hh.update(os.path.basename(f).encode() + fh.read())
     hh.update(repr((flavor, tuple(extra), link_lib, whitebox)).encode())
     d = os.path.join(CACHE, 'lib-' + rh, flavor)
     exe = os.path.join(d, '%s-%s' % (name, hh.hexdigest()[:12]))
@@ -189,14 +191,35 @@ def strip_lean_comments(text):
     return re.sub(r'--.*', '', text)
 
 
-def lean_sources():
-    out = []
-    for sub in ('IprModel', 'IprProofs', 'IprProps', 'IprDriver', 'Generated'):
-        for root, _, files in os.walk(os.path.join(LEAN, sub)):
-            for f in files:
-                if f.endswith('.lean'):
-                    out.append(os.path.join(root, f))
-    return sorted(out)
+def lean_sources(roots=None):
+    """Lean files of the project; with `roots` (module names) only their transitive import closure inside the project."""
+    if roots is None:
+        out = []
+        for sub in ('IprModel', 'IprProofs', 'IprProps', 'IprDriver', 'Generated'):
+            for root, _, files in os.walk(os.path.join(LEAN, sub)):
+                for f in files:
+                    if f.endswith('.lean'):
+                        out.append(os.path.join(root, f))
+        return sorted(out)
+    seen, todo = set(), list(roots)
+    while todo:
+        m = todo.pop()
+        path = os.path.join(LEAN, *m.split('.')) + '.lean'
+        if m in seen or not os.path.exists(path):
+            continue
+        seen.add(m)
+        for ln in open(path):
+            mm = re.match(r'\s*(?:public\s+)?import\s+(\S+)', ln)
+            if mm:
+                todo.append(mm.group(1))
+    return sorted(os.path.join(LEAN, *m.split('.')) + '.lean' for m in seen)
+
+
+def property_targets(pid):
+    t = ['IprProps.' + pid]
+    if os.path.exists(os.path.join(LEAN, 'IprDriver', pid + '.lean')):
+        t.append('model_' + pid.lower())
+    return t
 
 
 def property_theorems(pid):
@@ -222,7 +245,7 @@ def audit(pid):
     """Forbidden-token grep over all Lean sources + `#print axioms` on every property theorem.
     Returns dict(obligations, discharged, axioms={thm: [..]}, problems=[..])."""
     problems = []
-    for p in lean_sources():
+    for p in lean_sources(['IprProps.' + pid, 'IprDriver.' + pid]):
         for i, line in enumerate(strip_lean_comments(open(p).read()).splitlines(), 1):
             if FORBIDDEN.search(line):
                 problems.append('%s:%d: forbidden token: %s' % (os.path.relpath(p, VERIF), i, line.strip()[:80]))
@@ -402,14 +425,12 @@ def prove(res, pid, regen=None):
     """Layer P for one property: (regenerate tables), lake build, audit.  Returns (ok, audit_info, detail)."""
     if regen:
         regen()
-    ok, out = lean_build()
+    # Only this property's own targets (its theorems, their imports, its model driver): a file of another property
+    # that does not build at the moment is not this property's business.
+    ok, out = lean_build(property_targets(pid))
     if not ok:
         errs = '\n'.join(l for l in out.splitlines() if 'error' in l.lower() or l.startswith('✖'))[:3000]
-        # A failure in another property's files must not be blamed on this one: retry its own module only.
-        ok2, out2 = lean_build(['IprProps.' + pid, 'model_' + pid.lower()])
-        if not ok2:
-            return False, {'obligations': len(property_theorems(pid)), 'discharged': 0, 'axioms': {}, 'problems': [errs]}, out2
-        log('[lean] full build failed outside %s; its own module builds:\n%s' % (pid, errs[:500]))
+        return False, {'obligations': len(property_theorems(pid)), 'discharged': 0, 'axioms': {}, 'problems': [errs]}, out
     info = audit(pid)
     if res.tier == 'thorough':
         info['problems'] += leanchecker(['IprProps.' + pid])
